@@ -2,6 +2,8 @@ package eng
 
 import (
 	"fmt"
+	"strings"
+	"unicode/utf8"
 
 	"verifharness/gen"
 	"verifharness/mon"
@@ -122,6 +124,56 @@ func runDirectedHistory(c *Ctx, focus string, ics gen.ICSet, trace bool, ops []d
 	}
 }
 
+// c17SplitResidue: the node of the only live route P is (or was) split by a sibling that has gone again; the ambiguity
+// walk then meets P in two pieces. Its name-only twin must be rejected by the "only other route" clause.
+func c17SplitResidue(c *Ctx) {
+	r := c.R
+	ics := stdIC
+	var P, Q string
+	for try := 0; try < 50 && P == ""; try++ {
+		p := gen.Simple.Pattern(r)
+		i := strings.LastIndexByte(p, '}')
+		if i < 0 || len(p)-i-1 < 2 {
+			continue
+		}
+		tail := p[i+1:]
+		k := 1 + r.Intn(len(tail)-1) // cut inside the literal text after the last parameter (rune boundaries only)
+		for k < len(tail) && !utf8.RuneStart(tail[k]) {
+			k++
+		}
+		if k >= len(tail) {
+			continue
+		}
+		alt := ref.Pick(r, []string{"v", "k", "/z", "w/{id9}"})
+		if strings.HasPrefix(tail[k:], alt[:1]) {
+			continue
+		}
+		P, Q = p, p[:i+1]+tail[:k]+alt
+	}
+	if P == "" {
+		return
+	}
+	ops := []dOp{H(P, "GET"), H(Q, "GET", "POST")}
+	if r.Bool() {
+		ops[0], ops[1] = ops[1], ops[0]
+	}
+	switch r.Intn(4) {
+	case 0:
+		ops = append(ops, Rm(Q))
+	case 1:
+		ops = append(ops, Rm(Q, "GET"), Rm(Q, "POST"))
+	case 2:
+		ops = append(ops, dOp{op: "pclean", pattern: Q})
+	default:
+		// Q stays: two live routes, the verdict for the twin is the model's business
+	}
+	tw := twinOf(r, P)
+	ops = append(ops, H(tw, ref.Pick(r, []string{"GET", "PUT", "DELETE"})))
+	c.Class("split_residue_twin_script")
+	runDirectedHistory(c, "C17", ics, r.Chance(1, 4), ops, nil)
+	c.Nontrivial(fmt.Sprint(ops))
+}
+
 func hOps(xs ...dOp) []dOp { return xs }
 
 func H(p string, ms ...string) dOp  { return dOp{"handle", p, ms} }
@@ -230,9 +282,15 @@ func init() {
 		ID:       "C17",
 		Anchors:  []string{"tree.go:Add", "tree.go:checkMethods", "node.go:checkAmbiguous", "segment.go:Segment.IsAmbiguousPrefix", "method.go:addMethods"},
 		Cases:    histCases(4000, 240000),
-		Run:      func(c *Ctx) { runHistory(c, "C17") },
+		Run: func(c *Ctx) {
+			if c.R.Chance(1, 5) {
+				c17SplitResidue(c)
+				return
+			}
+			runHistory(c, "C17")
+		},
 		Directed: c17Directed,
-		Rule: "case = same history generator with 30% Handle calls built to be rejected (bad method at any list position, duplicate of a live method, repeated method, name-only twin); every rejected call is bracketed by two snapshots (Routes() + all probes incl. tricky paths + Allow) that must be equal, and every accept/reject must be justified by the model; " +
+		Rule: "one case in five = a scripted split-residue history on a fresh router (a route P with literal text after a parameter, a sibling Q that splits P's node inside that text, Q taken away again by Remove / method-by-method Remove / Prefix.Clean, in either registration order; then the name-only twin of P - the only other route - must be rejected and change nothing); otherwise case = same history generator with 30% Handle calls built to be rejected (bad method at any list position, duplicate of a live method, repeated method, name-only twin); every rejected call is bracketed by two snapshots (Routes() + all probes incl. tricky paths + Allow) that must be equal, and every accept/reject must be justified by the model; " +
 			"non-trivial (distinct by live table + call) = rejected Handle on a non-empty table",
 		Floors: func(t string) map[string]int64 {
 			if t == "quick" {
